@@ -127,6 +127,7 @@ class _PartGetter:
 
     def __init__(self, parts):
         self.parts = parts
+        self.__name__ = "partgetter"  # FromMap builds its name prefix from funcname(func)
 
     def __call__(self, i):
         return self.parts[i].copy()
